@@ -100,6 +100,8 @@ def gen_set(rng):
         if colcls != "all_default":
             if rng.integers(3) == 0:
                 p["standard_error"] = abs(rand_double(rng, "scaled"))
+                if rng.integers(6) == 0:
+                    p["standard_error"] = float("inf")  # what a singular covariance leaves behind: a float like any other
             r = int(rng.integers(5))
             if r == 0:
                 p["minimum"] = float(min(p["value"], rand_double(rng, vcls)))
@@ -532,8 +534,12 @@ def attach(rec):
     wrap(Parameters, "to_dataframe", rec=rec, key="mon:to_dataframe")
     wrap(Parameters, "from_dataframe", rec=rec, key="mon:from_dataframe")
     for mod in (csvmod, xlmod):
-        wrap(mod, "safe_dataframe_fillna", rec=rec, key="mon:safe_dataframe_fillna")
-        wrap(mod, "safe_dataframe_replace", rec=rec, key="mon:safe_dataframe_replace")
+        # diagnostic counters only: a plugin that no longer uses these helpers is still judged by its round trips
+        for helper in ("safe_dataframe_fillna", "safe_dataframe_replace"):
+            if hasattr(mod, helper):
+                wrap(mod, helper, rec=rec, key=f"mon:{helper}")
+            else:
+                rec.count(f"helper-not-used:{mod.__name__.rsplit('.', 1)[-1]}:{helper}")
 
 
 def run_shard(spec, rec):
